@@ -579,3 +579,77 @@ def role_rename(fn_node: ast.FunctionDef, roles: Sequence[str], skip_self=False)
     if skip_self and ps and ps[0] in ('self', 'cls'):
         ps = ps[1:]
     return {p: r for p, r in zip(ps, roles) if p != r}
+
+
+# ---------------------------------------------------------------------------
+# propositional reasoning over guards (atoms compared by normalised text)
+def _akey(e: ast.AST) -> Tuple[str, bool]:
+    """(text of the atom, negated) with `not x` / `x is False`-free normal spelling"""
+    neg = False
+    while isinstance(e, ast.UnaryOp) and isinstance(e.op, ast.Not):
+        e, neg = e.operand, not neg
+    return src(e), neg
+
+
+def prop_atoms(f, out: Optional[set] = None) -> set:
+    out = set() if out is None else out
+    k = f[0]
+    if k == 'atom':
+        out.add(_akey(f[1])[0])
+    elif k == 'raises':
+        out.add(show(f))
+    elif k == 'not':
+        prop_atoms(f[1], out)
+    elif k in ('and', 'or'):
+        for x in f[1:]:
+            prop_atoms(x, out)
+    return out
+
+
+def prop_truth(f, asg: Dict[str, bool]) -> bool:
+    k = f[0]
+    if k in ('true', 'iter'):
+        return True
+    if k == 'false':
+        return False
+    if k == 'not':
+        return not prop_truth(f[1], asg)
+    if k == 'and':
+        return all(prop_truth(x, asg) for x in f[1:])
+    if k == 'or':
+        return any(prop_truth(x, asg) for x in f[1:])
+    if k == 'atom':
+        t, neg = _akey(f[1])
+        return asg[t] != neg
+    return asg[show(f)]
+
+
+def prop_assignments(*fs, limit: int = 14):
+    import itertools
+    atoms: set = set()
+    for f in fs:
+        prop_atoms(f, atoms)
+    atoms_l = sorted(atoms)
+    if len(atoms_l) > limit:
+        raise AnalysisError(f'{len(atoms_l)} atoms in a propositional comparison')
+    for vals in itertools.product((False, True), repeat=len(atoms_l)):
+        yield dict(zip(atoms_l, vals))
+
+
+def prop_equiv(f, g) -> Optional[Dict[str, bool]]:
+    """None when f and g agree under every valuation of their atoms, else a witness"""
+    for asg in prop_assignments(f, g):
+        if prop_truth(f, asg) != prop_truth(g, asg):
+            return asg
+    return None
+
+
+def prop_implies(f, g) -> Optional[Dict[str, bool]]:
+    for asg in prop_assignments(f, g):
+        if prop_truth(f, asg) and not prop_truth(g, asg):
+            return asg
+    return None
+
+
+def parse_guard(text: str):
+    return formula_of(ast.parse(text, mode='eval').body)
